@@ -8,7 +8,7 @@ def instances(tier):
     q = tier == 'quick'
     out = []
     for n, k in ([(0, 0), (1, 1), (2, 2), (3, 3), (14, 2), (15, 2), (16, 2), (17, 2), (19, 1), (20, 1), (23, 2), (24, 2), (47, 1), (48, 1), (1022, 1), (1023, 1), (1024, 1), (1025, 1)] if q else
-                 [(0, 0), (1, 1), (2, 2), (3, 3), (4, 3), (14, 3), (15, 3), (16, 3), (17, 3), (19, 2), (20, 2), (23, 3), (24, 3), (47, 2), (48, 2), (1022, 2), (1023, 2), (1024, 2), (1025, 2)]):
+                 [(0, 0), (1, 1), (2, 2), (3, 3), (4, 3), (14, 2), (15, 3), (16, 3), (17, 2), (19, 2), (20, 2), (23, 2), (24, 2), (47, 2), (48, 2), (1022, 2), (1023, 2), (1024, 2), (1025, 2)]):
         out.append({'entry': 'h_query', 'params': [n, k], 'bound': 'strings of length %d: filler + every NUL-free %d-byte tail; cut points at both ends and the middle; any search character' % (n, k)})
     for n, k, m in ([(3, 3, 1), (6, 2, 1), (6, 2, 2), (16, 2, 1), (17, 1, 2), (24, 2, 1), (1024, 1, 1)] if q else
                     [(3, 3, 1), (4, 3, 2), (6, 3, 1), (6, 2, 2), (15, 2, 2), (16, 2, 1), (17, 2, 2), (24, 2, 1), (48, 2, 2), (1024, 1, 1), (1025, 1, 2)]):
@@ -33,8 +33,9 @@ def instances(tier):
 
 
 CAPLIM = 1090
+BUDGET_S = {'quick': 3600, 'thorough': 10800}
 BOUNDS = {'quick': 'lengths {0,1,2,3,14..17,19,20,23,24,47,48,1022..1025} with 1-3 fully symbolic tail bytes; separators of 1-2 symbolic bytes; mutation histories of 1-2 ops from 10 start lengths; integers: every value with <= 4 digits and every value within 20 of each power of ten and of each type limit (32/64 bit, signed/unsigned); printf-style construction around the 16/100/256-byte buffer boundaries',
-          'thorough': 'as quick with 2-3 symbolic tail bytes, 2-3 op histories, every integer with <= 5 digits'}
+          'thorough': 'as quick with 2 (lengths 3, 4, 15, 16: 3) symbolic tail bytes, 2-3 op histories, every integer with <= 5 digits'}
 OUTSIDE = ['integers with 6+ digits away from powers of ten (the multiply/divide-by-10 round trip over a full digit class does not finish in z3 within 60 s from 7 digits on)',
            'float/double text (libc %g / atof)', 'formatted content beyond %s and %i (libc printf is replaced by the mini printf of env/vlibc.c)', 'strings longer than 1100 bytes', 'wide-character paths']
 ASSUMPTIONS = ['vsnprintf/snprintf are the mini implementation in env/vlibc.c (C-locale, %s %i %d %u %x %llu ...), executed symbolically']
